@@ -33,6 +33,7 @@ func genTCP(rng *simkit.Rand, tier string, idx int) *simkit.Case {
 	c.Cfg["stream_delay_us"] = []int64{0, 100, 1000, 5000}[rng.Intn(4)]
 	c.Cfg["segment"] = []int64{0, 300, 900}[rng.Intn(3)]
 	c.Cfg["window"] = []int64{4 << 10, 64 << 10, 256 << 10}[rng.Intn(3)]
+	c.Cfg["timeout_ms"] = []int64{1000, 3000, 30000}[rng.Intn(3)] // proxy.timeout must not apply to tunnels
 	n := rng.Range(1, 6)
 	for i := 0; i < n; i++ {
 		c.Script = append(c.Script, simkit.Op{K: "conn", A: rng.Intn(1 << 30), B: rng.Intn(1 << 16), C: rng.Intn(1 << 16)})
@@ -138,8 +139,8 @@ func execTCP(run *simkit.Run) {
 	w := &cluster3{world: newWorld(run, ncfg), prop: "C07"}
 	defer w.teardown()
 	for i := 0; i < c.Int("nodes"); i++ {
-		w.startNode(nodeOpts{interval: 50 * time.Millisecond})
-		if run.Failed() {
+		w.startNode(nodeOpts{interval: 50 * time.Millisecond, proxyTimeout: time.Duration(c.Int("timeout_ms")) * time.Millisecond})
+		if run.Stop() {
 			return
 		}
 	}
@@ -249,7 +250,7 @@ func execTCP(run *simkit.Run) {
 		closers = append(closers, func() { fl.Close() })
 	}
 	for i, op := range c.Script {
-		if run.Failed() {
+		if run.Stop() {
 			break
 		}
 		run.Step = i
@@ -275,6 +276,11 @@ func (w *cluster3) tcpConn(svc *tcpService, op simkit.Op, viaForwarder bool) {
 	}
 	if r.Intn(4) == 0 {
 		p.stallMs = r.Range(1, 800)
+		if r.Intn(2) == 0 {
+			// idle for longer than the proxy's request timeout: a tunnel is not a request
+			p.stallMs = 1500 * r.Range(1, 4)
+			w.run.Probe("c07.tunnel_idle_past_proxy_timeout")
+		}
 	}
 	if p.rdBuf <= 100 {
 		// tiny read buffers over megabytes only cost wall time
